@@ -118,7 +118,7 @@ class Method(Variable):  # i.e. TypeBound procedure
                 link_obj = find_in_scope(self.parent.parent, self.link_name, obj_tree)
             else:
                 link_obj = find_in_scope(self.parent, self.link_name, obj_tree)
-            if link_obj is not None:
+            if (link_obj is not None) and not self.closes_link_cycle(link_obj):
                 self.link_obj = link_obj
                 if self.pass_name is not None:
                     self.pass_name = self.pass_name.lower()
